@@ -104,9 +104,10 @@ def operandValues : Operand → List Rat
   | .scalar _ v => [v]
   | .array _ _ vs => vs
   | .junk => []
+  | .array0 _ v => [v]
 
 def operandQuantity : Operand → Quantity
-  | .scalar q _ | .array q _ _ => q
+  | .scalar q _ | .array q _ _ | .array0 q _ => q
   | _ => []
 
 /-- absolute error (in eps) that unit matching and the operation carry into the result -/
@@ -167,6 +168,7 @@ def parseOperand (j : Json) : Except String Operand := do
   | "scalar" => pure (.scalar (← parseQuantity j "q") (← getRat j "v"))
   | "array" => pure (.array (← parseQuantity j "q") (← parseKind (← getStr j "kind")) (← parseRats j "vs"))
   | "junk" => pure .junk
+  | "array0" => pure (.array0 (← parseQuantity j "q") (← getRat j "v"))
   | _ => throw s!"bad operand type {t}"
 
 def parseOpName (s : String) : Except String Op :=
@@ -199,9 +201,71 @@ def outJ (inMag : Rat) : Except ErrKind Out → Json
 def parseSimple (j : Json) : Except String SimpleScalar := do
   pure ⟨← getSym j "c", ← getSym j "u", ← getRat j "v"⟩
 
+def parseQScalar (j : Json) : Except String QScalar := do
+  pure ⟨← parseQuantity j "q", ← getRat j "v"⟩
+
+/-- an optional string argument: JSON null (or absent) = `None`, otherwise the symbol code as a decimal string -/
+def getOptSym (j : Json) (k : String) : Except String (Option Sym) :=
+  match j.getObjVal? k with
+  | .ok (.str s) => match s.toNat? with
+    | some n => .ok (some n)
+    | none => .error s!"field {k}: not a symbol code"
+  | .ok .null => .ok none
+  | .error _ => .ok none
+  | .ok _ => .error s!"field {k}: null or a symbol code expected"
+
+def strBytes (s : String) : List Nat := s.toUTF8.toList.map (·.toNat)
+
+def parseElemText (j : Json) : Except String ElemText := do
+  pure ⟨← getBool j "tup", strBytes (← getStr j "s"), strBytes (← getStr j "g")⟩
+
+def natsJ (xs : List Nat) : Json := Json.arr (xs.map (fun n => Json.num (JsonNumber.fromNat n))).toArray
+
 def handleOne (j : Json) : Except String Json := do
   let op ← getStr j "op"
   match op with
+  | "rdiv" =>
+    -- `self.__rdiv__(other)` called directly
+    let a ← parseOperand (← j.getObjVal? "self")
+    let b ← parseOperand (← j.getObjVal? "other")
+    let r := arrayRDiv theEnv a b
+    let outMag := match r with
+      | .ok o => maxAbs ((o.values?).getD [])
+      | .error _ => 0
+    let mag := maxR (maxR (maxAbs (operandValues a)) (maxAbs (operandValues b))) outMag + matchErr .div b a
+    pure (outJ mag r)
+  | "fromscalars2" =>
+    let ss ← (← getArr j "ss").toList.mapM parseQScalar
+    let unit ← getOptSym j "unit"
+    let category ← getOptSym j "category"
+    let r := fromScalarsKw theEnv ss unit category
+    let outMag := match r with
+      | .ok o => maxAbs ((o.values?).getD [])
+      | .error _ => 0
+    let mag := maxR (maxAbs (ss.map (·.v))) outMag
+    let idx : List Json := match r with
+      | .ok o => (List.range (ss.length + 1)).map (fun i =>
+          match o.index i with
+          | .ok v => ratJ v
+          | .error e => errJ e)
+      | .error _ => []
+    pure (Json.mkObj [("res", outJ mag r), ("index", Json.arr idx.toArray)])
+  | "getvaluesrows" =>
+    let c ← getSym j "c"
+    let u ← getSym j "u"
+    let to ← getSym j "to"
+    let rows ← (← getArr j "rows").toList.mapM (fun r => match r with
+      | .arr a => a.toList.mapM parseRatJ
+      | _ => .error "a row must be an array")
+    match arrayGetValuesRows theEnv c u rows to with
+    | .error e => pure (errJ e)
+    | .ok out =>
+      pure (Json.mkObj [("ok", Json.mkObj [("rows", Json.arr (out.map ratsJ).toArray),
+        ("M", ratJ (maxR (maxAbs rows.flatten) (maxAbs out.flatten)))])])
+  | "str" =>
+    let q ← parseQuantity j "q"
+    let elems ← (← getArr j "elems").toList.mapM parseElemText
+    pure (Json.mkObj [("ok", Json.mkObj [("text", natsJ (arrayStr q elems))])])
   | "binop" =>
     let f ← parseOpName (← getStr j "f")
     let defers ← getBool j "defers"
